@@ -213,26 +213,37 @@ theorem stripBraces_braces (u : Line) (hu : u ≠ []) : stripBraces ('{' :: (u +
   have : u.reverse.isEmpty = false := by simpa using hu
   simp [this]
 
+/-- the texts of the configuration lines the tokenizer reads from the fence line `update` writes for a block
+with the configuration lines `cfg`: none if they hold white space only, otherwise one, the joined text without
+its leading white space (`trim_start`) -/
+def writtenCfg (cfg : Numbered) : List Line :=
+  if (trim (joinNumbered cfg)).isEmpty then [] else [trimStart (joinNumbered cfg)]
+
 /-- The fence line that `update` writes for a block (`n ≥ 3` backticks, the language, the
 configuration suffix) is read back by the fence recogniser with the same backticks and language
-and with a configuration that `update` writes in the same way again. -/
-theorem fence_line_reread (n : Nat) (hn : 3 ≤ n) (lang : Line) (hl : LangOK lang) (cfg : Numbered) :
+and with a configuration that `update` writes in the same way again: the text `writtenCfg cfg`. -/
+theorem fence_line_reread_cfg (n : Nat) (hn : 3 ≤ n) (lang : Line) (hl : LangOK lang) (cfg : Numbered) :
     ∃ config', fencePure (backticks n ++ lang ++ configSuffix cfg) = some (backticks n, lang, config') ∧
-      ∀ j, configSuffix (cfgLines j config') = configSuffix cfg := by
+      (∀ j, configSuffix (cfgLines j config') = configSuffix cfg) ∧
+      ∀ j, (cfgLines j config').map (·.2) = writtenCfg cfg := by
   by_cases he : (trim (joinNumbered cfg)).isEmpty = true
-  · refine ⟨[], ?_, ?_⟩
+  · refine ⟨[], ?_, ?_, ?_⟩
     · simp only [configSuffix, he, if_true, List.append_nil]
       exact fence_reread n hn lang hl
     · intro j
       have h1 : configSuffix cfg = [] := by simp only [configSuffix, he, if_true]
       have h2 : configSuffix (cfgLines j []) = [] := by rfl
       rw [h1, h2]
+    · intro j
+      simp only [writtenCfg, he, if_true]
+      rfl
   · have he : (trim (joinNumbered cfg)).isEmpty = false := by simpa using he
+    unfold writtenCfg
     generalize ht : joinNumbered cfg = t at he
     have hu : trimStart t ≠ [] := by
       intro h
       simp [trim, h, trimEnd] at he
-    refine ⟨'{' :: (trimStart t ++ ['}']), ?_, ?_⟩
+    refine ⟨'{' :: (trimStart t ++ ['}']), ?_, ?_, ?_⟩
     · simp only [configSuffix, ht, he, Bool.false_eq_true, if_false]
       exact fence_reread_config n hn lang hl (trimStart t)
     · intro j
@@ -240,5 +251,13 @@ theorem fence_line_reread (n : Nat) (hn : 3 ≤ n) (lang : Line) (hl : LangOK la
       have hi : trimStart (trimStart t) = trimStart t := dropWhile_idem _ _
       have htr : trim (trimStart t) = trim t := by simp only [trim, hi]
       simp only [cfgLines, stripBraces_braces _ hu, configSuffix, hj, ht, htr, he, hi]
+    · intro j
+      simp only [cfgLines, stripBraces_braces _ hu, he, Bool.false_eq_true, if_false, List.map_cons, List.map_nil]
+
+theorem fence_line_reread (n : Nat) (hn : 3 ≤ n) (lang : Line) (hl : LangOK lang) (cfg : Numbered) :
+    ∃ config', fencePure (backticks n ++ lang ++ configSuffix cfg) = some (backticks n, lang, config') ∧
+      ∀ j, configSuffix (cfgLines j config') = configSuffix cfg := by
+  obtain ⟨c, h1, h2, _⟩ := fence_line_reread_cfg n hn lang hl cfg
+  exact ⟨c, h1, h2⟩
 
 end Scrut.Update
